@@ -44,27 +44,46 @@ impl Scn {
     }
 }
 
-fn gen_size(dec: &mut Dec) -> usize {
-    match dec.choose(K::Arg, 20) {
-        0..=8 => 8 + dec.choose(K::Arg, 505) as usize,
-        9..=14 => 1024 + dec.choose(K::Arg, 48 * 1024) as usize,
-        _ => 65536 + dec.choose(K::Arg, 448 * 1024) as usize,
+fn gen_size(dec: &mut Dec, profile: u32) -> usize {
+    let class = match profile {
+        // mixed: small / medium / large
+        0 => dec.choose(K::Arg, 20),
+        // medium and large
+        1 => 7 + dec.choose(K::Arg, 13),
+        // large only
+        _ => 12,
+    };
+    match class {
+        0..=6 => 8 + dec.choose(K::Arg, 505) as usize,
+        7..=11 => 1024 + dec.choose(K::Arg, 48 * 1024) as usize,
+        _ => 65536 + dec.choose(K::Arg, if profile == 2 { 960 * 1024 } else { 448 * 1024 }) as usize,
     }
 }
 
 fn gen_scn(dec: &mut Dec) -> Scn {
     // 1 case in 6 is single-threaded: main does the churn itself
-    let threads = if dec.chance(K::Cfg, 1, 6) { 0 } else { 2 + dec.choose(K::Cfg, 3) as usize };
-    let b = 2 + dec.choose(K::Cfg, 7) as usize;
-    let inner = if b > 4 { 1 } else { 1 + dec.choose(K::Cfg, 2) as usize };
-    // 64..200 rounds, fewer when a round is big: a run should stay at about a second (every
+    let mut threads = if dec.chance(K::Cfg, 1, 6) { 0 } else { 2 + dec.choose(K::Cfg, 3) as usize };
+    let mut profile = dec.choose(K::Cfg, 3);
+    let mut b = if profile == 2 { 2 + dec.choose(K::Cfg, 3) as usize } else { 2 + dec.choose(K::Cfg, 7) as usize };
+    let mut inner = if b > 4 { 1 + dec.choose(K::Cfg, 2) as usize } else { 1 + dec.choose(K::Cfg, 4) as usize };
+    // 64..200 rounds, fewer when a round is big: an ordinary run should stay below a second (every
     // allocator call costs two atomic-instruction stops; spawning a thread costs about ten calls)
+    let mut budget = 1500;
+    // 1 multi-threaded case in 6 is a long one (4-6 s): 3..4 threads, large blocks only, several
+    // iterations per thread -- enough contended frees for a slow leak to clear the 8 MiB floor
+    if threads >= 2 && dec.chance(K::Cfg, 1, 6) {
+        threads = 3 + dec.choose(K::Cfg, 2) as usize;
+        profile = 2;
+        b = 3;
+        inner = 4 + dec.choose(K::Cfg, 2) as usize;
+        budget = 6500;
+    }
     let work = threads.max(1) * (inner * b + 10);
-    let max_rounds = (3000 / work).clamp(64, 200);
+    let max_rounds = (budget / work).clamp(64, 200);
     let rounds = 64 + dec.choose(K::Cfg, (max_rounds - 64 + 1) as u32) as usize;
     let mut plans = Vec::new();
     for _ in 0..threads.max(1) {
-        let sizes: Vec<usize> = (0..b).map(|_| gen_size(dec)).collect();
+        let sizes: Vec<usize> = (0..b).map(|_| gen_size(dec, profile)).collect();
         let mut order: Vec<usize> = (0..b).collect();
         match dec.choose(K::Arg, 3) {
             0 => {}
@@ -136,8 +155,15 @@ pub fn c04_engine_b(case: u64, mut dec: Dec, opts: &RunOpts) -> RunOut {
     cfg.max_bursts = 24;
     cfg.burst_den = 300;
     cfg.max_stops = 3_000_000;
+    // right behind an atomic instruction: 2..6 instructions later, every other time (when another thread can run)
+    cfg.atomic_extra_den = 2;
+    cfg.atomic_extra_min = 2;
+    cfg.atomic_extra_steps = 6;
+    cfg.hold_max = 12;
+    cfg.prefer_uniform = true;
     if scn.threads >= 2 {
-        (cfg.atomic_sites, cfg.cas_sites) = atomic_sites(&probe);
+        // extra steps after every kind of atomic instruction: a contended lock is taken with xchg
+        (cfg.atomic_sites, _) = atomic_sites(&probe);
     }
     let out = ptsim::run(&cfg, &mut dec);
     let mut ro = RunOut::default();
@@ -218,6 +244,9 @@ pub fn c04_engine_b(case: u64, mut dec: Dec, opts: &RunOpts) -> RunOut {
             scn.plans.iter().map(|p| p.1.clone()).collect::<Vec<_>>()
         )];
         ev.push(format!("mapped bytes at each round end: {mapped:?}"));
+        if let Some(r) = out.records.iter().find(|r| r.kind == R_DONE) {
+            ev.push(format!("DONE record payload: {:?}", r.v));
+        }
         ev.extend(out.events.iter().cloned());
         ro.events = ev;
         ro.sample = Some(json!({
